@@ -543,8 +543,8 @@ func (m *Model) Enqueue(now time.Time, envs []queue.Envelope, batch bool, n int,
 func (m *Model) amongOldestQueued(x *Msg, k int) bool {
 	olderSeq, olderRecv := 0, 0
 	for _, y := range m.Msgs {
-		if y == x || y.State != queue.StateQueued {
-			continue
+		if y == x || y.State != queue.StateQueued || m.fresh[y] {
+			continue // messages inserted by this very call are not eviction candidates
 		}
 		if y.Seq < x.Seq {
 			olderSeq++
